@@ -501,6 +501,23 @@ let judge_sched (which : string) g (obs : string) (pre : srv) (eui : n) : string
        if kind = "copies" && List.length data_downs > 1 then
          (if each_read_before_the_other_wrote then "bad:sched-copies-answered-twice" else "bad:sched-copy-answered-after-the-other-was-stored")
        else "ok"
+     | "C04" ->
+       (* two join-requests for one device handled at the same time, at most one of them genuine: a forged one leaves no
+          trace (its DevNonce is not recorded), and every join-accept answers a genuine one (a conformant device holding
+          that request's DevNonce decodes it to the stored session) *)
+       let raws_in = List.filter_map (fun tag -> match parse_event (g tag) with Rx (rx, _, _) -> Some rx.rx_raw | _ -> None) ["f1"; "f2"] in
+       let genuine = List.filter_map (fun raw -> match spec_join pre raw with Some (_, dn2) -> Some dn2 | None -> None) raws_in in
+       let forged_nonces = List.filter_map (fun raw -> match spec_join pre raw with
+           | None when List.length raw = 23 -> Some (string_of_int (int_of_n (le_val (List.rev (take 2 (drop 17 raw))))))
+           | _ -> None) raws_in in
+       let stored = bracket dv.x_nonces in
+       if List.exists (fun nn -> List.mem nn stored) forged_nonces then "bad:sched-forged-join-recorded-its-nonce"
+       else if List.length accepts > List.length genuine then "bad:sched-forged-join-answered"
+       else if List.exists (fun ja -> not (List.exists (fun dn2 -> match ref_on_join_accept e pre_row.d_appkey dn2 ja with
+           | Some ((addr, nwk), app) -> hex_of_bytes nwk = dv.x_nwk && hex_of_bytes app = dv.x_app && hex_of_n addr = dv.x_addr
+           | None -> false) genuine)) accepts then "bad:sched-join-accept-answers-no-genuine-request"
+       else if genuine = [] && (dv.x_nwk <> hex_of_bytes pre_row.d_nwkskey || stored <> []) then "bad:sched-forged-join-changed-state"
+       else "ok"
      | "C06" ->
        (* each frame that leaves carries one queued message: its bytes, its port, its confirmation request *)
        let queued = (dt_get pre.s_tab eui).ds_outbox in
